@@ -5,7 +5,7 @@
 
   `replace_with` is an iterator that owns the ids `src` (it never panics; what it still owns when it is
   dropped is dropped), and whose `size_hint().0` is `min remaining hintCap` (`hintCap` large: exact hint,
-  `hintCap = 0`: the iterator admits nothing, the `collected` fallback runs).
+  `hintCap = 0`: the iterator promises nothing, the `collected` fallback runs).
   The caller pulls according to a script and then drops the `Splice`.
 -/
 import BumpProof.Coll.Iter
